@@ -358,19 +358,26 @@ class DualPortSynchronousMemory(Logic):
         
         s = f'reg [{w-1}:0] mem [{numcells-1}:0];\n'
 
+        # the read ports are registered, as in clock() (and in SynchronousMemory):
+        # the data of the addressed word before this edge's writes
+        s += f'reg [{w-1}:0] rreaddata_a;\n'
+        s += f'reg [{w-1}:0] rreaddata_b;\n'
+
         s += 'always @(posedge clk) begin\n'
         s += 'if (write_a) \n'
         s += ' mem[write_address_a] <= writedata_a;\n'
+        s += ' rreaddata_a <= mem[read_address_a];\n'
         s += 'end\n'
 
         s += 'always @(posedge clk) begin\n'
         s += 'if (write_b) \n'
         s += ' mem[write_address_b] <= writedata_b;\n'
+        s += ' rreaddata_b <= mem[read_address_b];\n'
         s += 'end\n'
 
     
-        s += 'assign readdata_a = mem[read_address_a];\n'
-        s += 'assign readdata_b = mem[read_address_b];\n'
+        s += 'assign readdata_a = rreaddata_a;\n'
+        s += 'assign readdata_b = rreaddata_b;\n'
         return s
         
 
